@@ -21,9 +21,17 @@ macro_rules! constr {
 }
 
 pub fn constr(index: u64, fields: Vec<PlutusData>) -> PlutusData {
+    // standard Plutus Data convention: alternatives 0-6 use tags 121-127, 7-127 use
+    // tags 1280-1400, anything larger uses tag 102 with an explicit index
+    let (tag, any_constructor) = match index {
+        0..=6 => (121 + index, None),
+        7..=127 => (1280 + (index - 7), None),
+        _ => (102, Some(index)),
+    };
+
     PlutusData::Constr(Constr {
-        tag: 121 + index,
-        any_constructor: None,
+        tag,
+        any_constructor,
         fields: MaybeIndefArray::Def(fields),
     })
 }
@@ -84,9 +92,26 @@ impl IntoData for i64 {
 
 impl IntoData for i128 {
     fn as_data(&self) -> PlutusData {
-        let int = Int::try_from(*self).unwrap();
-        PlutusData::BigInt(BigInt::Int(int))
+        match Int::try_from(*self) {
+            Ok(int) => PlutusData::BigInt(BigInt::Int(int)),
+            // beyond the 64-bit CBOR integers: bignum, big-endian magnitude
+            Err(_) if *self >= 0 => {
+                let bytes = minimal_be_bytes(*self as u128);
+                PlutusData::BigInt(BigInt::BigUInt(BoundedBytes::from(bytes)))
+            }
+            Err(_) => {
+                // a negative bignum carries -1 - n
+                let bytes = minimal_be_bytes(!(*self) as u128);
+                PlutusData::BigInt(BigInt::BigNInt(BoundedBytes::from(bytes)))
+            }
+        }
     }
+}
+
+fn minimal_be_bytes(value: u128) -> Vec<u8> {
+    let bytes = value.to_be_bytes();
+    let skip = bytes.iter().take_while(|x| **x == 0).count();
+    bytes[skip..].to_vec()
 }
 
 impl TryIntoData for Vec<tir::Expression> {
